@@ -30,7 +30,7 @@ BUDGET = {"quick": 50, "thorough": 400}
 SUB8 = (rc.INTEGER8, rc.UNSIGNED8)
 
 
-def make_map(layout):
+def make_map(layout, pre=None):
     import canopen
     spec = [
         {"kind": "record", "index": 0x1400, "name": "RPDO 1 comm", "members": [
@@ -43,8 +43,17 @@ def make_map(layout):
     ]
     for k, e in enumerate(layout):
         spec.append({"kind": "var", "index": 0x2000 + k, "name": f"f{k}", "dt": e["dt"], "pdo": True})
+    for k, e in enumerate(pre or []):
+        spec.append({"kind": "var", "index": 0x2100 + k, "name": f"p{k}", "dt": e["dt"], "pdo": True})
     node = canopen.RemoteNode(3, build_od(spec))
     pmap = node.rpdo[1]
+    if pre:
+        # the same map object held another (typically longer) mapping before: re-mapped after clear()
+        for k, e in enumerate(pre):
+            full = rc.width(e["dt"])
+            pmap.add_variable(0x2100 + k, 0, None if e["len"] == full else e["len"])
+        pmap.data[:] = b"\xde" * len(pmap.data)
+        pmap.clear()
     vars_ = []
     for k, e in enumerate(layout):
         full = rc.width(e["dt"])
@@ -105,7 +114,7 @@ def run_case(case) -> Outcome:
     elif any(e["len"] < 8 and e["dt"] in rc.SIGNED for e in layout):
         klass = "signed-subbyte"
     try:
-        node, pmap, vars_ = make_map(layout)
+        node, pmap, vars_ = make_map(layout, case.get("pre"))
     except Exception as e:
         bad("add_variable-raises", f"{layout}: {type(e).__name__}: {e}")
         return Outcome(nontrivial, klass, D)
@@ -287,10 +296,35 @@ def layout_case(draw):
         else:
             v = draw(st.floats(allow_nan=False))
         ops.append({"var": k, "v": v})
-    return {"layout": layout, "frame": frame, "ops": ops}
+    case = {"layout": layout, "frame": frame, "ops": ops}
+    if draw(st.integers(0, 2)) == 0:
+        pre = []
+        rem = 64
+        for _ in range(draw(st.integers(1, 4))):
+            opts = [(dt, rc.width(dt)) for dt in FULL if rc.width(dt) <= rem] + ([(rc.UNSIGNED8, 3)] if rem >= 3 else [])
+            if not opts:
+                break
+            dt, ln = draw(st.sampled_from(opts))
+            pre.append({"dt": dt, "len": ln})
+            rem -= ln
+        case["pre"] = pre
+    return case
+
+
+def remap_cases():
+    """A map that held a longer / shorter / equally long mapping before clear()."""
+    long_ = [{"dt": rc.UNSIGNED64, "len": 64}]
+    mid = [{"dt": rc.UNSIGNED8, "len": 8}, {"dt": rc.INTEGER16, "len": 16}, {"dt": rc.BOOLEAN, "len": 1}]
+    short = [{"dt": rc.UNSIGNED8, "len": 5}]
+    for pre in (long_, mid, short):
+        for layout in (short, mid, long_, [{"dt": rc.INTEGER8, "len": 4}, {"dt": rc.UNSIGNED8, "len": 8},
+                                           {"dt": rc.BOOLEAN, "len": 1}]):
+            yield {"layout": layout, "pre": pre, "frame": bytes(8),
+                   "ops": [{"var": 0, "v": values_for(layout[0]["dt"], layout[0]["len"])[-1]}]}
 
 
 def search(ctx):
     thorough = ctx.tier == "thorough"
     ctx.enumerate(enum_cases(), "every data type at every bit offset 0..63; all 2^len values of fields <= 8 bits")
+    ctx.enumerate(remap_cases(), "maps re-mapped after clear() from a longer / shorter mapping")
     ctx.hypothesis(layout_case(), 20000 if thorough else 2500)
